@@ -69,7 +69,10 @@ def from_yaml_all(f: FileOrPath, ty: t.Type[T], *,
     with open_file(f) as f:
         obj = t.cast(t.List[t.Any], list(yaml.load_all(f, Loader)))  # type: ignore
 
-    return from_data(obj, t.List[ty], custom=custom)
+    # (not `t.List[ty]`: `ty` may be a tuple or struct type literal, which typing would misread)
+    from .convert import ConverterHandlers
+    from .converters import SequenceConverter
+    return t.cast(t.List[T], SequenceConverter(list, ty, handlers=ConverterHandlers.make(custom)).convert(obj))
 
 
 def write_json(obj: Convertible, f: FileOrPath, *,
